@@ -114,4 +114,8 @@ theorem listTextEnv_plain (env : String → Option String) (info : PkgInfo) (h :
   unfold listTextEnv listText printName
   simp [h]
 
+/-- the generated `list()` returns the error of writing the table (the tabwriter's `Flush`); `main` hands it to the same
+error path as a failing target: a listing that could not be written is not a successful listing -/
+def listingStatus (stdoutWritable : Bool) : Int := if stdoutWritable then 0 else 1
+
 end MageModel.Gen
